@@ -254,14 +254,23 @@ def reach(g, a, b):
     return False
 
 
-def very_deep_case(d):
+def very_deep_case(d, kind="template"):
     """Literal nesting far beyond the package's depth limit, written as text
     (the reference interpreter is itself recursive): only the package's own
     limit stands between such a page and CPython's recursion limit.  Oracle:
-    a str comes back in time, with an error element and a recorded message."""
+    a str comes back in time, with an error element and a recorded message.
+    kind: nesting through template arguments, through parser-function
+    arguments, through the name part of parser functions, or mixed."""
     text = "core"
-    for _ in range(d):
-        text = "{{tb|" + text + "}}"
+    for i in range(d):
+        k = kind if kind != "mixed" else ("template", "pfn-arg",
+                                          "pfn-name")[i % 3]
+        if k == "template":
+            text = "{{tb|" + text + "}}"
+        elif k == "pfn-arg":
+            text = "{{#if:x|" + text + "}}"
+        else:
+            text = "{{lc:" + text + "}}"
     ctx = env.new_ctx()
     try:
         ctx.add_page("Template:tb", 10, "<{{{1|}}}>")
@@ -276,15 +285,15 @@ def very_deep_case(d):
     base = {"part": "graph", "class": "very-deep-nesting"}
     if status == "timeout":
         return ({"kind": "timeout", **base},
-                f"nesting {d}: expand() still running after {BOUND_S}s")
+                f"{kind} nesting {d}: expand() still running after {BOUND_S}s")
     if status == "exc":
         return ({"kind": "exception", **base, **exc_bucket(val)},
-                f"nesting {d}: {exc_text(val)}")
+                f"{kind} nesting {d}: {exc_text(val)}")
     if not isinstance(val, str):
         return ({"kind": "not-str", **base}, repr(type(val)))
     if ERR not in val or msgs == 0:
         return ({"kind": "silent-cut", **base},
-                f"nesting {d}: no in-band error / message: {val[:100]!r}")
+                f"{kind} nesting {d}: no in-band error / message: {val[:100]!r}")
     return None
 
 
@@ -510,15 +519,17 @@ def shard_graph(idx, nshards, seed, n_random, known, quick):
     for i, (lib, page) in enumerate(fixed):
         if i % nshards == idx:
             one(lib, page, "enumerated")
-    for j, d in enumerate((400, 1000)):
+    deep = [(400, "template"), (1000, "template"), (250, "pfn-arg"),
+            (1000, "pfn-arg"), (1200, "pfn-name"), (600, "mixed")]
+    for j, (d, kind) in enumerate(deep):
         if j % nshards == idx:
-            v = very_deep_case(d)
-            part.case(h(("very-deep", d)), True,
-                      classes=["graph:very-deep-nesting"],
-                      sample={"page": "{{tb|" * 3 + "... nesting %d" % d})
+            v = very_deep_case(d, kind)
+            part.case(h(("very-deep", d, kind)), True,
+                      classes=["graph:very-deep-nesting:" + kind],
+                      sample={"page": f"{kind} nesting {d}"})
             if v is not None:
                 record(part, known, buckets, v[0], v[1],
-                       {"part": "very-deep", "depth": d}, d)
+                       {"part": "very-deep", "depth": d, "nest": kind}, d)
 
     def body(case):
         one(case[0], case[1], "random")
@@ -678,7 +689,7 @@ def replay(run, case):
         if status == "viol":
             run.violation(detail[0], detail[1], case)
     elif case["part"] == "very-deep":
-        v = very_deep_case(case["depth"])
+        v = very_deep_case(case["depth"], case.get("nest", "template"))
         run.case(h(("very-deep", case["depth"])), True,
                  sample={"depth": case["depth"]})
         if v is not None:
